@@ -105,3 +105,11 @@ def _(self, l, r, values):
     ensures(len(self._raw_indexes) == rank(self.g_a1, self.g_n1))
     ensures(forall(lambda k: implies(0 <= k and k < len(self._raw_indexes), 0 <= self._raw_indexes[k] and self._raw_indexes[k] < self.g_n1 and IsT(sel(self.g_a1, self._raw_indexes[k])) and rank(self.g_a1, self._raw_indexes[k]) == k), self._raw_indexes[k]))
     ensures(forall(lambda i: implies(0 <= i and i < self.g_n1 and IsT(sel(self.g_a1, i)), self._raw_indexes[rank(self.g_a1, i)] == i), sel(self.g_a1, i)))
+
+# ---- the full rebuild: the index table is recomputed from the raw list as it is now (RI from scratch)
+# (the raw wrapper is iterated as its item list: MutableSequence iteration yields items[0], items[1], ... - assumption A-seq-iter)
+@contract('_RepeatedValueWrapperUpdateHandler.handle')
+def _(self):
+    requires(self != None and self._raw_indexes != None and self._raw_wrapper != None)
+    modifies('list[int]@self._raw_indexes', 'list[int]@fresh')
+    ensures(RI(self._raw_indexes, old(elems(self._raw_wrapper)), old(len(self._raw_wrapper))))
